@@ -99,7 +99,7 @@ func TestKnown_read_truncated_by_concurrent_growth(t *testing.T) {
 	_ = c.WriteMulti(map[string][]tsm1.Value{k: base})
 	maxTs := int64(10 + N - 1)
 	spin := 0
-	for attempt := 0; attempt < 3000 && !reproduced; attempt++ {
+	for attempt := 0; attempt < 60 && !reproduced; attempt++ {
 		var got tsm1.Values
 		var wg sync.WaitGroup
 		started := make(chan struct{})
@@ -111,7 +111,7 @@ func TestKnown_read_truncated_by_concurrent_growth(t *testing.T) {
 		}()
 		<-started
 		// vary the delay between the start of the read and the write+sort
-		for i := 0; i < (attempt%50)*1000; i++ {
+		for i := 0; i < (attempt%30)*1500; i++ {
 			spin++
 		}
 		_ = c.WriteMulti(map[string][]tsm1.Value{k: {tsm1.NewIntegerValue(int64(-attempt-1), 2)}})
@@ -136,7 +136,7 @@ func TestKnown_first_use_init_race(t *testing.T) {
 	const G = 8
 	reproduced := false
 	var detail string
-	for iter := 0; iter < 60000 && !reproduced; iter++ {
+	for iter := 0; iter < 6000 && !reproduced; iter++ {
 		c := tsm1.NewCache(0, tsdb.EngineTags{})
 		start := make(chan struct{})
 		errs := make([]error, G)
